@@ -11,7 +11,7 @@ depends on this file.  The driver is a stateless line evaluator, so an op carrie
 
   (cache.run (sem share|copy) (order kid|text) (scope every|that) (keys …) (trust …) xPERMLOC (ttl N) (hdrs xH…) (NOW OP)…)
       OP = (verify i cached|direct) | (validate i REQ…) | (attenuate i ITEM…) | (discharge i …)
-         | (filter i F) | (header i) | tick | (evict KEYHASH)
+         | (filter i F) | (header i) | tick | (evict KEYHASH) | (rekey (keys …))   -- rekey: the issuer's key map changes
       output: the trace of the history as given, " # ", the trace of the same history with every
       verification done directly.
 
@@ -23,6 +23,7 @@ depends on this file.  The driver is a stateless line evaluator, so an op carrie
        | flyPerm | flyAuth | flyNewAuth | flySecrets | (forOrg ORG SEC NSEC) | (forOrgUnv ORG)
   ITEM = (c CAV) | (new3p xLOC xTICKET xRN xNONCE)
   CB   = (ok ITEM…) | err | (ifnone ITEM…)        -- ifnone: refuse a ticket that carries caveats
+       | (bycavs ((CAV…) CB)… CB)               -- per-ticket decisions keyed by the ticket's caveats; last = default
 -/
 import Driver.CavIO
 import Driver.OpsToken
@@ -58,7 +59,7 @@ partial def filter? : Sx → Option Filter
   | .list (.atom "allows" :: rs) => do some (.allowsAccess (← rs.mapM access?))
   | _ => none
 
-def cb? : Sx → Option Bundle.Discharger
+partial def cb? : Sx → Option Bundle.Discharger
   | .atom "err" => some fun _ => none
   | .list (.atom "ok" :: items) => do
     let items ← items.mapM item?
@@ -66,6 +67,16 @@ def cb? : Sx → Option Bundle.Discharger
   | .list (.atom "ifnone" :: items) => do
     let items ← items.mapM item?
     some fun tc => if tc.isEmpty then some items else none
+  | .list (.atom "bycavs" :: rest) => do
+    -- a per-ticket decision list, keyed by the ticket's caveats; the last element is the default
+    let dflt ← cb? (← rest.getLast?)
+    let cases ← rest.dropLast.mapM fun
+      | .list [.list pat, dec] => do some (cavsStr (← cavs? pat), ← cb? dec)
+      | _ => none
+    some fun tc =>
+      match cases.find? fun c => c.1 == cavsStr tc with
+      | some c => c.2 tc
+      | none => dflt tc
   | _ => none
 
 def keys? : Sx → Option (Bytes → Option Bytes)
@@ -204,8 +215,14 @@ def cacheOp? : Sx → Option Cache.Op
   | .list [.atom "evict", .atom h] => some (.evict h.toList)      -- a key DIGEST; resolved below
   | _ => none
 
-def timedOp? : Sx → Option (Int × Cache.Op)
-  | .list [now, op] => do some (← now.int?, ← cacheOp? op)
+/-- a step of a history: the time, the operation, and — for `(rekey (keys …))`, which stands for the
+issuer changing its key map between two requests — the verifier in force from this step on -/
+abbrev TimedStep := Int × Cache.Op × Option Bundle.Oracle
+
+def timedOp? (trusted : Bytes → List Bytes) : Sx → Option TimedStep
+  | .list [now, .list [.atom "rekey", ks]] => do
+    some (← now.int?, .tick, some (Bundle.Resolver.oracle ⟨← keys? ks, trusted⟩))
+  | .list [now, op] => do some (← now.int?, ← cacheOp? op, none)
   | _ => none
 
 def outStr : Cache.Out → String
@@ -227,9 +244,10 @@ def missCount (ko : Cache.KeyOrder) (s : Cache.HSys) (now : Int) (i : Nat) : Nat
   (misses.map (·.1)).eraseDups.length
 
 /-- object-level run; `evict` carries a key digest -/
-def hrunIO (sem : Cache.Sem) (P : Cache.Params) : List (Int × Cache.Op) → Cache.HSys → List String
+def hrunIO (sem : Cache.Sem) (P0 : Cache.Params) : List TimedStep → Cache.HSys → List String
   | [], _ => []
-  | (now, op) :: rest, s =>
+  | (now, op, v) :: rest, s =>
+    let P : Cache.Params := match v with | some V => { P0 with V := V } | none => P0
     let op' : Cache.Op := match op with
       | .evict d => .evict (((s.store.find? fun e => hash8 e.key == String.ofList d).map (·.key)).getD [])
       | o => o
@@ -240,9 +258,10 @@ def hrunIO (sem : Cache.Sem) (P : Cache.Params) : List (Int × Cache.Op) → Cac
     (outStr o ++ "~" ++ statesStr s'.views ++ extra) :: hrunIO sem P rest s'
 
 /-- value-level run (the system the theorems of C14 are about); `evict` carries a key digest -/
-def vrunIO (P : Cache.Params) : List (Int × Cache.Op) → Cache.Sys → List String
+def vrunIO (P0 : Cache.Params) : List TimedStep → Cache.Sys → List String
   | [], _ => []
-  | (now, op) :: rest, s =>
+  | (now, op, v) :: rest, s =>
+    let P : Cache.Params := match v with | some V => { P0 with V := V } | none => P0
     let op' : Cache.Op := match op with
       | .evict d => .evict (((s.store.find? fun e => hash8 e.key == String.ofList d).map (·.key)).getD [])
       | o => o
@@ -297,9 +316,9 @@ def evalOpBundle : Sx → Option String
     let pl ← pl.bytes?
     let ttl ← ttl.int?
     let hdrs ← hs.mapM text?
-    let hist ← steps.mapM timedOp?
+    let hist ← steps.mapM (timedOp? R.trusted)
     let P : Cache.Params := { V := R.oracle, ttl, scope := sc, order := ord }
-    let direct := hist.map fun no => (no.1, no.2.direct)
+    let direct := hist.map fun no => (no.1, no.2.1.direct, no.2.2)
     let h0 := Cache.hinit pl hdrs
     let cachedH := hrunIO sem P hist h0
     let directH := hrunIO sem P direct h0
